@@ -102,7 +102,9 @@ def parseMapCase (payload : List Sexp) : Option MapCase := do
   some { inp := { way := way, ic := ic, src := src, dest := dest, srcNew := sk == "new", destNew := dk == "new",
                   fns := fns, mapperPtr := mptr, conv := conv,
                   manualW := atoms (man.bind (·.field? "w")), manualR := atoms (man.bind (·.field? "r")),
-                  cyclic := hasBack sms || hasBack dms },
+                  cyclic := hasBack sms || hasBack dms,
+                  srcSkipEmbeds := (atoms ((p.field? "skipembeds").bind (fun x => x.field? "src"))).map (fun (x : String) => x.splitOn "."),
+                  destSkipEmbeds := (atoms ((p.field? "skipembeds").bind (fun x => x.field? "dest"))).map (fun (x : String) => x.splitOn ".") },
          prop := prop, masks := atoms (p.field? "masks"), fmasks := atoms (p.field? "fmasks"),
          srcSlots := atoms (slots.bind (·.field? "src")), destSlots := atoms (slots.bind (·.field? "dest")) }
 
